@@ -159,4 +159,102 @@ theorem zip_child_parent (acc : Info → Bool) (a : Info) (cs : List (Tree Info)
 /- non-vacuity: a stored first entry named META-INF/MANIFEST.MF -/
 example : zipContains ([0x50, 0x4B, 3, 4] ++ List.replicate 26 0 ++ kManifest) kManifest false = some true := by decide
 
+/-! ### forward clause for markers in entries 2..6 -/
+
+/-- one hop of the loop of `zipContains`: the cursor is at the name of an entry (position `p`,
+    30 bytes after its header); the next local-header signature after the 26 bytes the loop
+    skips is at `q`, and that header is complete -/
+def Hop (raw : Bytes) (p q : Nat) : Prop :=
+  p + 0x1A ≤ raw.length ∧ p + 0x1A ≤ q ∧ indexOf pk34 (raw.drop (p + 0x1A)) = some (q - (p + 0x1A)) ∧ q + 0x1E ≤ raw.length
+
+/-- a chain of hops from name position `p` through the names of the following entries, none of
+    which starts with the marker, ending at a name that does -/
+inductive Chain (raw sig : Bytes) : Nat → Nat → Prop
+  | last (p q : Nat) : Hop raw p q → hasPrefix (raw.drop (q + 0x1E)) sig = true → Chain raw sig p 1
+  | step (p q n : Nat) : Hop raw p q → hasPrefix (raw.drop (q + 0x1E)) sig = false →
+      Chain raw sig (q + 0x1E) n → Chain raw sig p (n + 1)
+
+/-- **the loop follows the chain**: with at least as many iterations as hops, it finds the marker -/
+theorem zipLoop_chain (raw sig : Bytes) : ∀ (n fuel p : Nat), Chain raw sig p n → n ≤ fuel →
+    zipLoop sig fuel (raw.drop p) = true := by
+  intro n
+  induction n with
+  | zero => intro fuel p h; cases h
+  | succ n ih =>
+    intro fuel p h hf
+    obtain ⟨fuel', rfl⟩ : ∃ f', fuel = f' + 1 := ⟨fuel - 1, by omega⟩
+    have hop_step : ∀ q, Hop raw p q →
+        zipLoop sig (fuel' + 1) (raw.drop p) =
+          (if hasPrefix (raw.drop (q + 0x1E)) sig then true else zipLoop sig fuel' (raw.drop (q + 0x1E))) := by
+      intro q ⟨h1, h2, h3, h4⟩
+      rw [zipLoop]
+      have l1 : ¬ ((raw.drop p).length < 0x1A) := by simp only [List.length_drop]; omega
+      simp only [l1, ↓reduceIte, List.drop_drop, h3]
+      have l2 : ¬ ((raw.drop (p + 0x1A)).length < q - (p + 0x1A) + 0x1E) := by simp only [List.length_drop]; omega
+      simp only [l2, ↓reduceIte]
+      have e : p + 0x1A + (q - (p + 0x1A) + 0x1E) = q + 0x1E := by omega
+      rw [e]
+    cases h with
+    | last _ q hq hp =>
+      rw [hop_step q hq, hp]; rfl
+    | step _ q m hq hp hrest =>
+      rw [hop_step q hq, hp]
+      simp only [Bool.false_eq_true, ↓reduceIte]
+      exact ih fuel' (q + 0x1E) hrest (by omega)
+
+/-- **C19 (forward, entries 2..6)**: the first entry's name is not the marker (and, for the
+    OOXML checks, is one of the names a package may start with); the second local header is the
+    first signature at or after offset `compressedSize + 49`; from its name the marker is reached
+    at once or through at most four further hops: then `zipContains` answers true -/
+theorem zipContains_forward (raw sig : Bytes) (mso : Bool) (nh : Nat)
+    (hlen : 0x1E ≤ raw.length)
+    (hmso : mso = true → msoSkipFiles.any (fun sf => hasPrefix (raw.drop 0x1E) sf) = true)
+    (hso : 0x1E + (u32le raw 18 + 49) % 4294967296 + nh ≤ raw.length)
+    (hidx : indexOf pk34 (raw.drop ((u32le raw 18 + 49) % 4294967296)) = some nh)
+    (hfin : hasPrefix (raw.drop (0x1E + (u32le raw 18 + 49) % 4294967296 + nh)) sig = true ∨
+      ∃ n, n ≤ 4 ∧ Chain raw sig (0x1E + (u32le raw 18 + 49) % 4294967296 + nh) n) :
+    zipContains raw sig mso = some true := by
+  unfold zipContains
+  have l0 : ¬ (raw.length < 0x1E) := by omega
+  simp only [l0, ↓reduceIte]
+  by_cases hp0 : hasPrefix (raw.drop 0x1E) sig = true
+  · simp [hp0]
+  · simp only [hp0, Bool.false_eq_true, ↓reduceIte]
+    have hm : (mso && !(msoSkipFiles.any fun sf => hasPrefix (raw.drop 0x1E) sf)) = false := by
+      cases mso with
+      | false => rfl
+      | true => simp [hmso rfl]
+    simp only [hm, Bool.false_eq_true, ↓reduceIte]
+    rw [getU32le_isSome (by omega)]
+    simp only
+    generalize (u32le raw 18 + 49) % 4294967296 = so at hso hidx hfin
+    have l1 : ¬ ((raw.drop 0x1E).length < so) := by simp only [List.length_drop]; omega
+    have l2 : ¬ (raw.length < so) := by omega
+    simp only [l1, l2, ↓reduceIte, hidx, List.drop_drop]
+    have l3 : ¬ ((raw.drop (0x1E + so)).length < nh) := by simp only [List.length_drop]; omega
+    simp only [l3, ↓reduceIte]
+    rcases hfin with h | ⟨n, hn, hc⟩
+    · simp [h]
+    · by_cases h : hasPrefix (raw.drop (0x1E + so + nh)) sig = true
+      · simp [h]
+      · simp only [h, Bool.false_eq_true, ↓reduceIte, Option.some.injEq]
+        exact zipLoop_chain raw sig n 4 _ hc hn
+
+/- non-vacuity: a three-entry package ([Content_Types].xml, _rels/.rels, word/document.xml) -/
+def exContentTypes : Bytes := [91, 67, 111, 110, 116, 101, 110, 116, 95, 84, 121, 112, 101, 115, 93, 46, 120, 109, 108]
+def exRels : Bytes := [95, 114, 101, 108, 115, 47, 46, 114, 101, 108, 115]
+def exWordDoc : Bytes := [119, 111, 114, 100, 47, 100, 111, 99, 117, 109, 101, 110, 116, 46, 120, 109, 108]
+def exWord : Bytes := [119, 111, 114, 100, 47]
+def exArchive : Bytes :=
+  pk34 ++ List.replicate 14 0 ++ [5, 0, 0, 0] ++ List.replicate 8 0 ++ exContentTypes ++ List.replicate 5 120 ++
+  pk34 ++ List.replicate 26 0 ++ exRels ++ List.replicate 20 120 ++
+  pk34 ++ List.replicate 26 0 ++ exWordDoc ++ List.replicate 10 120
+
+example : zipContains exArchive exWord true = some true := by decide +kernel
+
+example : Hop exArchive 84 115 ∧ hasPrefix (exArchive.drop 145) exWord = true ∧
+    indexOf pk34 (exArchive.drop ((u32le exArchive 18 + 49) % 4294967296)) = some 0 := by
+  unfold Hop
+  decide +kernel
+
 end Mime.C19
